@@ -206,11 +206,30 @@ def gen_tree(rng, depth, max_digits=12, max_exp=30, ops="+-*/^", zero_bias=0.08)
             return ("bin", "*", ("lit", str(sa * a), Fraction(sa * a)), ("lit", str(sb * b), Fraction(sb * b)))
         if r < 0.85 or "^" not in ops:
             # sums, differences and quotients of two boundary integers (carry out of / borrow into the top word)
-            a, b = B.integers(rng), B.integers(rng)
             op2 = rng.choice([o for o in "+-/*" if o in ops])
-            if op2 == "/" and b == 0:
-                b = 1
-            return ("bin", op2, ("lit", str(sa * a), Fraction(sa * a)), ("lit", str(sb * b), Fraction(sb * b)))
+            if rng.random() < 0.3 and "/" in ops:
+                # (n1 / d1) op (n2 / d2) with all four at the top of a machine word
+                (n1, d1), (n2, d2) = B.word_fraction(rng), B.word_fraction(rng)
+                if rng.random() < 0.3:
+                    n2, d2 = n1, d1
+                f1 = ("bin", "/", ("lit", str(sa * n1), Fraction(sa * n1)), ("lit", str(d1), Fraction(d1)))
+                f2 = ("bin", "/", ("lit", str(sb * n2), Fraction(sb * n2)), ("lit", str(d2), Fraction(d2)))
+                return ("bin", op2, f1, f2)
+            if rng.random() < 0.5:
+                a, b = B.integers(rng), B.integers(rng)
+                if op2 == "/" and b == 0:
+                    b = 1
+                return ("bin", op2, ("lit", str(sa * a), Fraction(sa * a)), ("lit", str(sb * b), Fraction(sb * b)))
+            # ... or of two boundary LITERALS (point moved in, exponent, 1 +- 10^-k), often the same one twice: word-sized
+            # numerators over word-sized denominators on both sides (0.9223372036854775807 + 0.9223372036854775807)
+            ta = B.literal(rng)
+            tb = ta if rng.random() < 0.4 else B.literal(rng)
+            if op2 == "-" and tb == ta and rng.random() < 0.5:
+                tb = tb[1:] if tb.startswith("-") else "-" + tb
+            va, vb = lit_from_text(ta), lit_from_text(tb)
+            if op2 == "/" and vb == 0:
+                op2 = "+"
+            return ("bin", op2, ("lit", ta, va), ("lit", tb, vb))
         # a power that lands on a word boundary: (2^32)^2, (2^16 + 1)^4, (10^5)^4 ...
         n = rng.choice([2, 2, 3, 4, -2])
         a = rng.choice([2 ** (64 // abs(n)), 2 ** (128 // abs(n)), 2 ** (32 // abs(n)), 10 ** rng.randint(3, 10)]) + rng.randint(-2, 2)
@@ -228,6 +247,35 @@ def gen_tree(rng, depth, max_digits=12, max_exp=30, ops="+-*/^", zero_bias=0.08)
     else:
         right = gen_tree(rng, depth - 1, max_digits, max_exp, ops, zero_bias)
     return ("bin", op, left, right)
+
+def gen_chain(rng, n):
+    """A long flat chain a0 op a1 op a2 ... (left to right within a precedence level, as the minimal spelling has it), with the
+    occasional parenthesised pair: exercises whatever grows with the NUMBER of operands rather than with nesting depth."""
+    def leaf():
+        if rng.random() < 0.1:
+            a, b = int_lit(rng.randint(1, 99)), int_lit(rng.randint(1, 99))
+            return ("bin", rng.choice("+-*"), a, b)
+        v = rng.choice([rng.randint(1, 9), rng.randint(1, 999), -rng.randint(1, 9)])
+        return int_lit(v) if rng.random() < 0.8 else gen_literal(rng, 4, 2, allow_pct=False, boundary=0)
+    ops = rng.choice(["+-", "*/", "+-*/", "+-*/", "+"])
+    # build with correct precedence: a sum of products
+    def product():
+        t = leaf()
+        while rng.random() < (0.5 if "*" in ops and "+" in ops else (0.0 if "*" not in ops else 1.0)) and budget[0] > 0:
+            budget[0] -= 1
+            t = ("bin", rng.choice([o for o in ops if o in "*/"]), t, leaf())
+        return t
+    budget = [n]
+    if "+" not in ops and "-" not in ops:
+        t = leaf()
+        for _ in range(n):
+            t = ("bin", rng.choice(ops), t, leaf())
+        return t
+    t = product()
+    while budget[0] > 0:
+        budget[0] -= 1
+        t = ("bin", rng.choice([o for o in ops if o in "+-"]), t, product())
+    return t
 
 def gen_exponent(rng, depth):
     r = rng.random()
